@@ -12,6 +12,7 @@ package main
 
 import (
 	"context"
+	"go/token"
 	"go/types"
 
 	"golang.org/x/tools/go/ssa"
@@ -343,6 +344,12 @@ func runEnumerations(P *Program, S *Specs, prop string) ([]*Obligation, []string
 			continue
 		}
 		target := en.Args[0]
+		// "calls pkg.(*T).M@pkg.S.f": only the calls whose receiver is read from field f of S
+		callTarget, recvField := target, ""
+		if i := strings.Index(target, "@"); i >= 0 && en.Kind == "calls" {
+			callTarget, recvField = target[:i], target[i+1:]
+		}
+		fieldSeen := false
 		allowed := map[string]bool{}
 		for _, a := range en.Args[2:] {
 			a = strings.TrimSuffix(strings.TrimSpace(a), ",")
@@ -391,8 +398,8 @@ func runEnumerations(P *Program, S *Specs, prop string) ([]*Obligation, []string
 					case "calls":
 						if ci, ok := in.(ssa.CallInstruction); ok {
 							c := ci.Common()
-							if f := c.StaticCallee(); f != nil && funcKey(f) == target {
-								hit = true
+							if f := c.StaticCallee(); f != nil && funcKey(f) == callTarget {
+								hit = recvField == "" || (len(c.Args) > 0 && loadedFromField(c.Args[0]) == recvField)
 							}
 							if c.IsInvoke() && "iface "+typeNameOf(c.Value.Type())+"."+c.Method.Name() == target {
 								hit = true
@@ -402,6 +409,14 @@ func runEnumerations(P *Program, S *Specs, prop string) ([]*Obligation, []string
 						if mc, ok := in.(*ssa.MakeClosure); ok {
 							if f, ok := mc.Fn.(*ssa.Function); ok && funcKey(f) == target {
 								hit = true
+							}
+						}
+					}
+					if recvField != "" {
+						if fa, ok := in.(*ssa.FieldAddr); ok {
+							T := fa.X.Type().Underlying().(*types.Pointer).Elem()
+							if typeNameOf(T)+"."+fieldName(T, fa.Field) == recvField {
+								fieldSeen = true
 							}
 						}
 					}
@@ -427,7 +442,7 @@ func runEnumerations(P *Program, S *Specs, prop string) ([]*Obligation, []string
 		if found == 0 && len(en.Args) == 3 && en.Args[2] == "nowhere" {
 			// "in nowhere": the target must have no site at all; to keep the clause from silently
 			// detaching, the target itself has to exist in the program
-			exists := P.Funcs[target] != nil
+			exists := P.Funcs[target] != nil || fieldSeen
 			for k := range P.Funcs {
 				if k == target || strings.HasSuffix(k, "."+strings.TrimPrefix(target, "ice.")) {
 					exists = true
@@ -447,6 +462,20 @@ func runEnumerations(P *Program, S *Specs, prop string) ([]*Obligation, []string
 		}
 	}
 	return out, errs
+}
+
+// loadedFromField: "pkg.T.f" when v is a load of field f of a *T, else "".
+func loadedFromField(v ssa.Value) string {
+	u, ok := v.(*ssa.UnOp)
+	if !ok || u.Op != token.MUL {
+		return ""
+	}
+	fa, ok := u.X.(*ssa.FieldAddr)
+	if !ok {
+		return ""
+	}
+	T := fa.X.Type().Underlying().(*types.Pointer).Elem()
+	return typeNameOf(T) + "." + fieldName(T, fa.Field)
 }
 
 func typeNameOf(t types.Type) string {
